@@ -514,4 +514,221 @@ theorem writeOf_frame (rel : Rel) (s : Step) (w w' : Wl) (r : Int) (h : writeOf 
     · exact ⟨view_patch w _ _ _, rfl, rfl, rfl, rfl, rfl⟩
   · cases h
 
+/-! ### the shapes of what the steps write -/
+
+/-- the admitted object of a relevant change -/
+def heldOf (new : Wl) : Wl := { new with us := setPartition new.us maxInt16, inProgress := true }
+
+/-- The three things a user's update can become. -/
+theorem submit_step_cases (c : Cfg) (d0 : Wl) (s : Step) (o : StepOut) (hc : s.call = .submit)
+    (h : step c (some d0) s = .val o) :
+    (relevant c.world d0 (applyEdit d0 s.edit) = true ∧ dsNoRU (applyEdit d0 s.edit) = true ∧
+       o = { res := .rejected, wl := some d0, writes := 0, obs := none }) ∨
+    (relevant c.world d0 (applyEdit d0 s.edit) = true ∧ dsNoRU (applyEdit d0 s.edit) = false ∧
+       o = { res := .ok, wl := some (heldOf (applyEdit d0 s.edit)), writes := 0, obs := none }) ∨
+    (relevant c.world d0 (applyEdit d0 s.edit) = false ∧
+       o = { res := .ok, wl := some (applyEdit d0 s.edit), writes := 0, obs := none }) := by
+  simp only [step, hc] at h
+  rw [submit_spec] at h
+  cases hr : relevant c.world d0 (applyEdit d0 s.edit)
+  · right; right
+    simp only [hr, Bool.false_eq_true, if_false, Out.val.injEq] at h
+    exact ⟨rfl, h.symm⟩
+  · cases hn : dsNoRU (applyEdit d0 s.edit)
+    · right; left
+      simp only [hr, hn, if_true, Bool.false_eq_true, if_false, Out.val.injEq] at h
+      exact ⟨rfl, rfl, h.symm⟩
+    · left
+      simp only [hr, hn, if_true, Out.val.injEq] at h
+      exact ⟨rfl, rfl, h.symm⟩
+
+theorem released_finalize (w : Wl) : released (ctrlFinalize w true) = true := by
+  rw [ctrlFinalize_eq]
+  simp only [if_true, released, partV_norm, partV_merge, curPart_norm, curPart_merge_absent, hasRU_norm, hasRU_merge,
+    beq_self_eq_true, Bool.true_and, Bool.and_true]
+  cases hk : w.kind <;> simp [finPaused, usPaused_merge_false_ds]
+
+theorem holdFrame_heldOf (new : Wl) : holdFrame new (heldOf new) = true := by
+  have h1 : ({ heldOf new with us := new.us, inProgress := new.inProgress } : Wl) = new := by cases new; rfl
+  have h4 := usType_setPartition new.us maxInt16
+  simp only [holdFrame, h1, beq_self_eq_true, Bool.true_and]
+  have h2 : usPaused (heldOf new).us = usPaused new.us := usPaused_setPartition _ _
+  have h3 : isUnordered (heldOf new).kind (heldOf new).us = isUnordered new.kind new.us := isUnordered_setPartition _ _ _
+  have h5 : (heldOf new).us = setPartition new.us maxInt16 := rfl
+  rw [h2, h3, h5]
+  simp only [beq_self_eq_true, Bool.true_and]
+  exact h4
+
+theorem exposure_heldOf (new : Wl) (r : Int) (hr : replicasOf new = some r) (hs : sizeOK r = true) :
+    exposureW (heldOf new) = 0 := by
+  have h1 : replicasOf (heldOf new) = some r := by rw [← hr]; exact replicasOf_congr rfl rfl
+  simp only [exposureW, h1]
+  have : currentPartition (heldOf new).us = maxInt16 := curPart_setPartition _ _
+  rw [this]
+  exact exposure_hold r hs
+
+/-- the workload `Initialize` writes -/
+def claimed (w : Wl) (r : Int) : Wl :=
+  { w with control := .this, us := normUS w.kind (mergeRU w.us (.int (initPartition w r)) (some false)) }
+
+theorem exposure_claimed (w : Wl) (r : Int) (hr : replicasOf w = some r) (hs : sizeOK r = true) :
+    exposureW (claimed w r) = 0 := by
+  have h1 : replicasOf (claimed w r) = some r := by rw [← hr]; exact replicasOf_congr rfl rfl
+  have h2 : currentPartition (claimed w r).us = initPartition w r := by
+    simp only [claimed, curPart_norm, curPart_merge_int]
+  simp only [exposureW, h1, h2]
+  unfold initPartition
+  cases w.kind
+  · exact exposure_hold r hs
+  · exact exposure_hold r hs
+  · exact exposure_hold r hs
+  · exact exposure_self r ((sizeOK_iff r).mp hs).1
+
+/-- the workload `UpgradeBatch` writes -/
+def upgraded (w : Wl) (r : Int) (e : IntOrPct) (nn : Option Int) : Wl :=
+  { w with us := normUS w.kind (mergeRU w.us (.int (desiredPartition w r e nn)) none) }
+
+theorem upgrade_write {rel : Rel} {s : Step} {w w' : Wl} {r : Int} (hcall : s.call = .upgradeBatch)
+    (h : writeOf rel s w r = some w') :
+    r ≠ 0 ∧ ∃ e, entryOf rel s.batch = some e ∧ desiredPartition w r e rel.noNeedUpdate < currentPartition w.us ∧
+      w' = upgraded w r e rel.noNeedUpdate := by
+  simp only [writeOf, hcall] at h
+  split at h
+  · cases h
+  · rename_i hr0
+    split at h
+    · rename_i e he
+      obtain ⟨hlt, hw'⟩ := ctrlUpgradeBatch_some h
+      exact ⟨hr0, e, he, hlt, hw'⟩
+    · cases h
+
+theorem upgrade_nowrite {rel : Rel} {s : Step} {w : Wl} {r : Int} {e : IntOrPct} (hcall : s.call = .upgradeBatch)
+    (hr0 : r ≠ 0) (he : entryOf rel s.batch = some e) (h : writeOf rel s w r = none) :
+    currentPartition w.us ≤ desiredPartition w r e rel.noNeedUpdate := by
+  simp only [writeOf, hcall, hr0, if_false, he] at h
+  exact ctrlUpgradeBatch_none h
+
+theorem upgraded_facts (w : Wl) (r : Int) (e : IntOrPct) (nn : Option Int) :
+    replicasOf (upgraded w r e nn) = replicasOf w ∧
+    currentPartition (upgraded w r e nn).us = desiredPartition w r e nn ∧
+    partV (upgraded w r e nn).us = .int (desiredPartition w r e nn) ∧
+    sameButPartition w (upgraded w r e nn) = true := by
+  refine ⟨replicasOf_congr rfl rfl, ?_, ?_, ?_⟩
+  · simp only [upgraded, curPart_norm, curPart_merge_int]
+  · simp only [upgraded, partV_norm, partV_merge]
+  · have h1 : ({ upgraded w r e nn with us := w.us } : Wl) = w := by cases w; rfl
+    have h2 : effType (upgraded w r e nn).us = effType w.us := by simp only [upgraded, effType_norm, effType_merge]
+    have h3 : usPaused (upgraded w r e nn).us = usPaused (normUS w.kind w.us) := usPaused_merge_none _ _ _
+    have h4 : isUnordered (upgraded w r e nn).kind (upgraded w r e nn).us = isUnordered w.kind w.us := by
+      simp only [upgraded, isUnordered_norm, isUnordered_merge]
+    simp [sameButPartition, h1, h2, h3, h4]
+
+theorem self_withinStep (rel : Rel) (batch : Int) (w : Wl) (o : StepOut) (h : o.wl = some w) :
+    upgradeWithinStep rel batch (some w) o = true := by
+  simp [upgradeWithinStep, h]
+
+theorem finalize_facts (w : Wl) (b : Bool) :
+    (ctrlFinalize w b).control = .none ∧ sameButKnobs w (ctrlFinalize w b) = true ∧
+    (b = false → (ctrlFinalize w b).us = w.us) ∧
+    (b = true → released (ctrlFinalize w b) = true ∧ effType (ctrlFinalize w b).us = effType w.us ∧
+       isUnordered (ctrlFinalize w b).kind (ctrlFinalize w b).us = isUnordered w.kind w.us ∧
+       (w.kind ≠ .daemonSet → usPaused (ctrlFinalize w b).us = usPaused (normUS w.kind w.us))) := by
+  have h0 : ({ ctrlFinalize w b with us := w.us, control := w.control } : Wl) = w := by
+    rw [ctrlFinalize_eq]; cases b <;> (cases w; rfl)
+  refine ⟨by rw [ctrlFinalize_eq]; cases b <;> rfl, by simp [sameButKnobs, h0], ?_, ?_⟩
+  · intro hb; subst hb; rw [ctrlFinalize_eq]; rfl
+  · intro hb; subst hb
+    refine ⟨released_finalize w, ?_, ?_, ?_⟩
+    · rw [ctrlFinalize_eq]; simp only [if_true, effType_norm, effType_merge]
+    · rw [ctrlFinalize_eq]; simp only [if_true, isUnordered_norm, isUnordered_merge]
+    · intro hk
+      rw [ctrlFinalize_eq]
+      simp only [if_true]
+      have : finPaused w.kind = none := by
+        unfold finPaused; cases hh : w.kind <;> first | rfl | exact absurd hh hk
+      rw [this]
+      exact usPaused_merge_none _ _ _
+
+theorem applyEdit_quiet (d : Wl) (e : Edit) (h1 : e.replicas = none) (h2 : e.us = none) :
+    (applyEdit d e).us = d.us ∧ (applyEdit d e).replicas = d.replicas ∧ (applyEdit d e).kind = d.kind := by
+  unfold applyEdit
+  rw [h1, h2]
+  cases e.tmpl <;> exact ⟨rfl, rfl, rfl⟩
+
+theorem stepAllow_nonneg (rel : Rel) (r : Int) (s : Step) : 0 ≤ stepAllow rel r s := by
+  unfold stepAllow
+  cases s.call <;> simp only []
+  · exact Int.le_refl 0
+  · split
+    · exact Int.le_max_left _ _
+    · exact Int.le_refl 0
+  · split
+    · exact Int.le_max_left _ _
+    · exact Int.le_refl 0
+  · exact Int.le_refl 0
+
+/-- One step of a walk (the user neither scales nor edits the update strategy): the workload is still there, has the
+    same size, and lets move at most what it did or what the step allows. -/
+theorem step_exposure (c : Cfg) (d : Wl) (r : Int) (s : Step) (o : StepOut)
+    (hrep : replicasOf d = some r) (hs : sizeOK r = true) (hnn : nnOK r c.rel.noNeedUpdate = true)
+    (hq1 : s.edit.replicas = none) (hq2 : s.edit.us = none) (h : step c (some d) s = .val o) :
+    ∃ d', o.wl = some d' ∧ replicasOf d' = some r ∧ exposureW d' ≤ max (exposureW d) (stepAllow c.rel r s) := by
+  have hr0 : 0 ≤ r := ((sizeOK_iff r).mp hs).1
+  have ha0 := stepAllow_nonneg c.rel r s
+  have same : ∀ d', replicasOf d' = some r → exposureW d' = exposureW d → o.wl = some d' →
+      ∃ d', o.wl = some d' ∧ replicasOf d' = some r ∧ exposureW d' ≤ max (exposureW d) (stepAllow c.rel r s) := by
+    intro d' h1 h2 h3
+    exact ⟨d', h3, h1, by rw [h2]; exact Int.le_max_left _ _⟩
+  have zero : ∀ d', replicasOf d' = some r → exposureW d' = 0 → o.wl = some d' →
+      ∃ d', o.wl = some d' ∧ replicasOf d' = some r ∧ exposureW d' ≤ max (exposureW d) (stepAllow c.rel r s) := by
+    intro d' h1 h2 h3
+    exact ⟨d', h3, h1, by rw [h2]; omega⟩
+  by_cases hc : s.call = .submit
+  · obtain ⟨e1, e2, e3⟩ := applyEdit_quiet d s.edit hq1 hq2
+    have hrn : replicasOf (applyEdit d s.edit) = some r := by rw [replicasOf_congr e3 e2]; exact hrep
+    rcases submit_step_cases c d s o hc h with ⟨_, _, ho⟩ | ⟨_, _, ho⟩ | ⟨_, ho⟩ <;> subst ho
+    · exact same d hrep rfl rfl
+    · exact zero _ (by rw [← hrn]; exact replicasOf_congr rfl rfl) (exposure_heldOf _ r hrn hs) rfl
+    · exact same _ hrn (by simp only [exposureW, hrn, hrep, e1]) rfl
+  · rcases ctrl_step_cases c (some d) s o hc h with ⟨_, _, hwl, _⟩ | ⟨_, hd, _⟩ |
+        ⟨w, r', hd, hrep', _, ⟨_, _, hwl, _⟩ | ⟨_, hrest⟩⟩
+    · exact same d hrep rfl hwl
+    · cases hd
+    · exact same d hrep rfl hwl
+    · simp only [Option.some.injEq] at hd; subst hd
+      rw [hrep] at hrep'; cases hrep'
+      rcases hrest with ⟨_, _, hwl, _⟩ | ⟨w', _, _, _, hwl, _⟩ | ⟨w', hsome, _, _, hwl, _⟩
+      · exact same d hrep rfl hwl
+      · exact same d hrep rfl hwl
+      · cases hcall : s.call
+        · simp only [writeOf, hcall] at hsome
+          obtain ⟨_, hw'⟩ := ctrlInitialize_some hsome
+          have hw'' : w' = claimed d r := hw'
+          subst hw''
+          exact zero _ (by rw [← hrep]; exact replicasOf_congr rfl rfl) (exposure_claimed d r hrep hs) hwl
+        · obtain ⟨_, e, he, _, hw'⟩ := upgrade_write hcall hsome
+          subst hw'
+          obtain ⟨f1, f2, _, _⟩ := upgraded_facts d r e c.rel.noNeedUpdate
+          refine ⟨_, hwl, by rw [f1]; exact hrep, ?_⟩
+          have hb := desired_exposure_bound d r e c.rel.noNeedUpdate hr0 hnn
+          have hal : stepAllow c.rel r s = max 0 (allowed r e c.rel.noNeedUpdate) := by simp [stepAllow, hcall, he]
+          simp only [exposureW, f1, hrep, f2, hal]
+          omega
+        · simp only [writeOf, hcall, Option.some.injEq] at hsome
+          subst hsome
+          have hrf : replicasOf (ctrlFinalize d s.bpNil) = some r := by
+            rw [← hrep]; rw [ctrlFinalize_eq]; cases s.bpNil <;> exact replicasOf_congr rfl rfl
+          cases hb : s.bpNil
+          · apply same _ (by rw [hb] at hrf; exact hrf) _ (by rw [hb] at hwl; exact hwl)
+            simp only [exposureW, ctrlFinalize_eq]
+            rfl
+          · refine ⟨_, hwl, hrf, ?_⟩
+            have hal : stepAllow c.rel r s = max 0 r := by simp [stepAllow, hcall, hb]
+            have hcp : currentPartition (ctrlFinalize d true).us = 0 := by
+              rw [ctrlFinalize_eq]; simp only [if_true, curPart_norm, curPart_merge_absent]
+            rw [hb] at hrf
+            simp only [hb, exposureW, hrf, hcp, hal, exposure_zero' r hr0]
+            omega
+        · exact absurd hcall hc
+
 end RV.CtlSts
